@@ -2,11 +2,14 @@
 Driver for C02: replays a harness schedule on `Uniflow.Flow` (nodes = `Uniflow.Node` over
 `Uniflow.Tracer`, fixed code).
 
+  orderfree                                     (first line) compare the elements of every join as multisets → ok
   node o | node m <nOut> | node j <nIn>        add a one-to-one / one-to-many / many-to-one node   → ok
   link <n> <w> n <m> <port> | link <n> <w> s <k>   link writer w of node n (0 = error port, i+1 = out[i]) → ok
   src <m> <port>                                the source writer feeds in-port <port> of node m     → ok
   send <val>                                    the source writes a request                          → obs
-  rel <n> o <val> | i | e <val> | m <val|->* | d    the action running in node n returns             → obs
+  resend <val>                                  the source writes the SAME packet object again       → obs
+  rel <n> o <val> | i | e <val> | m <val|->* | d | s <k>   the action running in node n returns      → obs
+                                                (s k: one-to-many, the in packet itself on outputs 0..k-1)
   ans <k> N | same | <val>                      sink k answers its oldest request                    → obs
   end                                           → Q<all tracers empty & threads idle> P<panic>
                                                   F<reference answers of all requests, "," separated> (F- while one is undetermined)
@@ -22,21 +25,25 @@ import Uniflow.Model.Flow
 namespace Uniflow.Driver.C02
 open Uniflow.Tracer Uniflow.Node Uniflow.Flow
 
+def sortIf (srt : Bool) (l : List String) : List String :=
+  if srt then (l.toArray.qsort (· < ·)).toList else l
+
+/- `srt` (case declared `orderfree`): the elements of every join are printed sorted, i.e. compared as
+multisets – see the harness for why -/
 mutual
-def showVal : Val → String
+def showVal (srt : Bool) : Val → String
   | .nil => "n"
   | .atom k => s!"a{k}"
-  | .err ms => "e" ++ ".".intercalate (ms.map toString)
-  | .slice vs => "[" ++ showVals vs ++ "]"
-def showVals : List Val → String
-  | [] => ""
-  | [v] => showVal v
-  | v :: vs => showVal v ++ "," ++ showVals vs
+  | .err ms => "e" ++ ".".intercalate (sortIf srt (ms.map toString))
+  | .slice vs => "[" ++ ",".intercalate (sortIf srt (showVals srt vs)) ++ "]"
+def showVals (srt : Bool) : List Val → List String
+  | [] => []
+  | v :: vs => showVal srt v :: showVals srt vs
 end
 
-def showAns : Ans → String
+def showAns (srt : Bool) : Ans → String
   | .empty => "N"
-  | .pay v => showVal v
+  | .pay v => showVal srt v
 
 def parseVal (s : String) : Option Val :=
   if s = "n" then some .nil
@@ -47,17 +54,17 @@ def parseVal (s : String) : Option Val :=
 def parseOptVal (s : String) : Option (Option Val) :=
   if s = "-" then some none else (parseVal s).map some
 
-def obs (g : G) : String :=
-  let es := g.entered.map (fun e => s!"E{e.1}:" ++ "+".intercalate (e.2.map showVal))
-  let ks := g.arrived.map (fun e => s!"K{e.1}:" ++ showVal e.2)
+def obs (srt : Bool) (g : G) : String :=
+  let es := g.entered.map (fun e => s!"E{e.1}:" ++ "+".intercalate (e.2.map (showVal srt)))
+  let ks := g.arrived.map (fun e => s!"K{e.1}:" ++ showVal srt e.2)
   let sorted := ((es ++ ks).toArray.qsort (· < ·)).toList
-  let rs := g.srcOut.map (fun a => "R" ++ showAns a)
-  let safe := if respOK showAns g then "S1" else "S0"
+  let rs := g.srcOut.map (fun a => "R" ++ showAns srt a)
+  let safe := if respOK (showAns srt) g then "S1" else "S0"
   match sorted ++ rs with
   | [] => "- " ++ safe
   | xs => joinSp xs ++ " " ++ safe
 
-def step (g : G) : List String → G × String
+def step (srt : Bool) (g : G) : List String → G × String
   | ["node", "o"] => ({ g with nodes := g.nodes ++ [Node.mk .oneToOne] }, "ok")
   | ["node", "m", k] =>
     match k.toNat? with
@@ -88,7 +95,13 @@ def step (g : G) : List String → G × String
     | _, _ => (g, "bad-op")
   | ["send", v] =>
     match parseVal v with
-    | some v => let g := send g v; (g, obs g)
+    | some v => let g := send g v; (g, obs srt g)
+    | none => (g, "bad-op")
+  | ["resend", v] =>
+    -- the client writes the packet object of the previous `send` again: `Writer.Write` copies, so this
+    -- is one more independent request with the same payload
+    match parseVal v with
+    | some v => let g := send g v; (g, obs srt g)
     | none => (g, "bad-op")
   | "rel" :: n :: rest =>
     let r : Option Rel := match rest with
@@ -96,12 +109,13 @@ def step (g : G) : List String → G × String
       | ["i"] => some .same
       | ["e", v] => (parseVal v).map Rel.err
       | ["d"] => some .drop
+      | ["s", k] => k.toNat?.map Rel.sames
       | "m" :: vs => (vs.mapM parseOptVal).map Rel.many
       | _ => none
     match n.toNat?, r with
     | some n, some r =>
       match release g n r with
-      | some g => (g, obs g)
+      | some g => (g, obs srt g)
       | none => (g, "bad-op")
     | _, _ => (g, "bad-op")
   | ["ans", k, a] =>
@@ -112,18 +126,23 @@ def step (g : G) : List String → G × String
     match k.toNat?, a with
     | some k, some a =>
       match sinkAnswer g k a with
-      | some g => (g, obs g)
+      | some g => (g, obs srt g)
       | none => (g, "bad-op")
     | _, _ => (g, "bad-op")
   | ["end"] =>
     let (f, m) := match refAnswers g with
       | some as =>
-        ("F" ++ ",".intercalate (as.map showAns),
-         if as.map showAns == g.resp.map showAns then "M1" else "M0")
+        ("F" ++ ",".intercalate (as.map (showAns srt)),
+         if as.map (showAns srt) == g.resp.map (showAns srt) then "M1" else "M0")
       | none => ("F-", "M1")
     (g, s!"Q{if quiescentEmpty g then 1 else 0} P{if anyPanic g then 1 else 0} {f} {m}")
   | _ => (g, "bad-op")
 
-def handler : Handler := { σ := G, init := {}, step := step }
+def step2 (s : G × Bool) (l : List String) : (G × Bool) × String :=
+  match l with
+  | ["orderfree"] => ((s.1, true), "ok")
+  | _ => let (g, out) := step s.2 s.1 l; ((g, s.2), out)
+
+def handler : Handler := { σ := G × Bool, init := ({}, false), step := step2 }
 
 end Uniflow.Driver.C02
